@@ -27,7 +27,17 @@ func genLR(r *rand.Rand, indirect bool) *gast.Grammar {
 	}
 	levels := 1 + r.Intn(3)
 	g := &gast.Grammar{}
-	name := func(l int) string { return fmt.Sprintf("E%d", l) }
+	// lower levels are named so that they sort after the top rule (E2, E3, M..) or before it (D2, D3,
+	// D2m ..): analyses that pick rules by name must not depend on which. The intermediate rule of a
+	// two-rule cycle always sorts after the rule through which the cycle is entered, so that pigeon makes
+	// the entered rule the leader (a cycle entered through a non-leader is known finding F24)
+	flip := indirect && r.Intn(2) == 0
+	name := func(l int) string {
+		if flip && l > 1 {
+			return fmt.Sprintf("D%d", l)
+		}
+		return fmt.Sprintf("E%d", l)
+	}
 	decor := func(items []*gast.Expr) []*gast.Expr {
 		// sprinkle predicates / state blocks between operator and operand
 		out := []*gast.Expr{}
@@ -57,10 +67,13 @@ func genLR(r *rand.Rand, indirect bool) *gast.Grammar {
 		}
 		var alts []*gast.Expr
 		nrec := 1 + r.Intn(3)
-		if indirect && l == 1 {
-			// E1 <- M1 x {..} / E2 ; M1 <- E1 op {..} / w
+		if indirect && (l == 1 || r.Intn(2) == 0) {
+			// E1 <- M1 x {..} / E2 ; M1 <- E1 op {..} / w   (also on lower levels: several separate cycles)
 			op, x, w := nextOp(), nextOp(), nextOp()
-			mid := "M1"
+			mid := fmt.Sprintf("M%d", l)
+			if flip && l > 1 {
+				mid = fmt.Sprintf("D%dm", l)
+			}
 			a1 := gast.A(gast.S(decor([]*gast.Expr{gast.Lab("a", gast.Ref(mid)), gast.L(x), gast.Lab("b", gast.Ref(next))})...), nid(), actSpec())
 			alts = append(alts, a1, gast.Ref(next))
 			g.Rules = append(g.Rules, &gast.Rule{Name: self, Expr: gast.C(alts...)})
@@ -122,7 +135,7 @@ func genLR(r *rand.Rand, indirect bool) *gast.Grammar {
 	case 2:
 		start = gast.A(gast.S(gast.Lab("a", gast.Ref("E1")), gast.Lab("b", gast.Star(gast.S(gast.L(","), gast.Ref("E1"))))), nid(), mon.Spec{})
 	default:
-		start = gast.S(gast.Ref("E1"), gast.Opt(gast.S(gast.L("?"), gast.Ref("E"+fmt.Sprint(levels)))))
+		start = gast.S(gast.Ref("E1"), gast.Opt(gast.S(gast.L("?"), gast.Ref(name(levels)))))
 	}
 	_ = startExtra
 	g.Rules = append([]*gast.Rule{{Name: "S", Expr: start}}, g.Rules...)
@@ -298,11 +311,47 @@ func C08(c *Ctx) {
 		},
 	}
 	c.runKnownF06()
+	c.runKnownF24()
 	c.runKnownF22()
 	c.DiffCheck(cfg)
 }
 
 // runKnownF06 executes the fixed witness of known finding F06.
+// runKnownF24 executes the witness of known finding F24: a two-rule left-recursive cycle entered
+// through the rule that is NOT the leader pigeon selects (the alphabetically first candidate). The
+// leader is grown greedily and its longest result is the only one the entered rule gets to see, so
+// the entered rule loses matches the iterative reading gives it.
+func (c *Ctx) runKnownF24() {
+	found := false
+	for _, id := range c.KnownIDs() {
+		if id == "F24-nonleader-entry" {
+			found = true
+		}
+	}
+	if !found {
+		return
+	}
+	at := func() *gast.Expr { return gast.Cl(gast.Chars("x")) }
+	g := &gast.Grammar{Rules: []*gast.Rule{
+		{Name: "S", Expr: gast.S(gast.Lab("a", gast.Ref("D2")), gast.Star(gast.Dot()))},
+		{Name: "D2", Expr: gast.C(gast.S(gast.Ref("C2"), gast.L("~"), at()), at())},
+		{Name: "C2", Expr: gast.C(gast.S(gast.Ref("D2"), gast.L("<")), gast.S(gast.L(">"), at()))},
+	}}
+	g.Finalize()
+	bt := c.BuildUnits([]*gast.Grammar{g}, [][]string{{"-support-left-recursion"}}, false, func(int) bool { return true })
+	defer bt.Close()
+	if !bt.Units[0].OK {
+		c.Broken("F24 witness does not build: " + bt.Units[0].Fail)
+		return
+	}
+	in := []byte(">x~x<")
+	r := bt.Run([]*mon.Case{{ID: "f24", Pkg: bt.Units[0].Pkg, Input: in}}, runOptsDefault)["f24"]
+	m := ref.Run(g, in, ref.Opts{LR: true})
+	// the iterative reading: D2 matches ">x~x" (the growth step "<" "~" x fails), S succeeds
+	c.MarkKnownStillFails("F24-nonleader-entry", r == nil || m.OK && (!r.ErrNil || r.Val != m.ValCanon))
+	c.Eval(1)
+}
+
 func (c *Ctx) runKnownF06() {
 	g := c08Strata()[0]
 	// make the operand's action fail always, so the witness does not depend on the coin
@@ -386,6 +435,10 @@ func c08Strata() []*gast.Grammar {
 			gast.S(gast.NotE(gast.S(gast.Ref("E1"), gast.L(";"))), gast.Lab("a", gast.Ref("E1")), gast.Star(gast.Dot())), gast.S(gast.Ref("E1"), gast.L(";")))),
 			r("E1", gast.C(act(gast.S(gast.Lab("a", gast.Ref("E1")), gast.L("+"), gast.Lab("b", gast.Ref("At"))), 2, mon.Spec{}), gast.Ref("At"))),
 			r("At", act(gast.Plus(gast.Cl(&gast.ClassSpec{Ranges: [][2]rune{{'0', '9'}}})), 3, mon.Spec{R: 2}))),
+		// two separate two-rule cycles, the upper one with names that sort after the lower one's
+		mk(r("S", gast.S(gast.Ref("Sum"), gast.NotE(gast.Dot()))), r("Sum", gast.C(act(gast.S(gast.Lab("a", gast.Ref("SumL")), gast.Lab("b", gast.Ref("Prod"))), 1, mon.Spec{}), gast.Ref("Prod"))), r("SumL", act(gast.S(gast.Lab("a", gast.Ref("Sum")), gast.L("+")), 2, mon.Spec{R: 3})),
+			r("Prod", gast.C(act(gast.S(gast.Lab("a", gast.Ref("ProdL")), gast.Lab("b", gast.Ref("At"))), 3, mon.Spec{}), gast.Ref("At"))), r("ProdL", act(gast.S(gast.Lab("a", gast.Ref("Prod")), gast.L("*")), 4, mon.Spec{R: 3})),
+			r("At", act(gast.Plus(gast.Cl(&gast.ClassSpec{Ranges: [][2]rune{{'0', '9'}}})), 5, mon.Spec{R: 2}))),
 		// a key of the state store deleted (and others set) by state blocks on the growing path: the
 		// snapshot restored when the last, non-extending attempt is rolled back is the store as the
 		// last kept step left it, not an older one with the deleted key still present
